@@ -107,8 +107,13 @@ class DeliveryMonitor(netsim.Monitor):
         if not miss:
             return  # everything was delivered; not reaching quiescence is not C01's claim
         kinds = sorted(set(m.split(":")[-1].strip().split(" ")[0] if ":" in m else m.split(" ")[1] for m in miss))
+        cc, sc = w.ep["c"].conn, w.ep["s"].conn
         raise netsim.Violation(
-            {"monitor": "liveness", "missing": kinds if miss else ["quiescence"]},
+            {"monitor": "liveness", "missing": kinds if miss else ["quiescence"],
+             # structural class of the stuck state (attribute reads, for the signature only)
+             "client_rebound": w.client_addr != netsim.C_ADDR,
+             "client_handshake_confirmed": bool(cc is not None and cc._handshake_confirmed),
+             "server_handshake_complete": bool(sc is not None and w.ep["s"].hs_done)},
             "fair phase ended (%s at t=%.3fs, %d steps) without delivering: %s"
             % (outcome, w.now - w.t0, w.nsteps, "; ".join(miss) or "nothing missing but never quiescent"),
         )
